@@ -1,10 +1,12 @@
 import Driver.Util
 import Driver.Bulk
 import Driver.Numscript
+import Driver.Router
 /-! registry of the areas the driver serves -/
 namespace Driver
 def areas : List (String × Handler) := [
   ("bulk", BulkD.handle),
-  ("numscript", NumscriptD.handle)
+  ("numscript", NumscriptD.handle),
+  ("router", RouterD.handle)
 ]
 end Driver
